@@ -1395,9 +1395,10 @@ func call(n *node) {
 					}
 				default:
 					val := v(f)
-					if val.IsZero() && dest[i].Kind() != reflect.Interface {
+					if val.IsZero() && dest[i].Kind() != reflect.Interface && val.Type() != dest[i].Type() {
 						// Work around a recursive struct zero interface issue.
 						// Once there is a better way to handle this case, the dest can just be set.
+						// A zero value of the parameter type is set, as it may be a negative zero.
 						continue
 					}
 					if nod, ok := val.Interface().(*node); ok && nod.recv != nil {
